@@ -27,7 +27,7 @@ the pinned tree (616 pairs, identical for every base word) is pinned by digest, 
 its own signature, so a new failure cannot hide behind the known one.
 """
 from mc import env  # noqa: F401
-from mc import par, spaces
+from mc import par, spaces, hist
 from mc.report import Report, Acc, exc_sig
 from mc.oracle import gf2
 
@@ -573,6 +573,86 @@ def run(only=None):
         s.declared = len(tasks)
         for acc in par.pmap(w_history, tasks, nw):
             s.merge(acc)
+        s.done()
+
+
+    if want("input_containers"):
+        s = rep.sub("input_containers",
+                    "weight <= 1 messages + complements + seed words x {frozenbitarray, bitarray with a live memoryview, bitarray over an "
+                    "imported read-only / writable buffer}: encode, decode (error-free and with one inverted bit, repair on and off) give "
+                    "the same bits as for a plain bitarray and leave the argument as it was")
+        for m in spaces.small_scope_messages(K, 1, extra=[env.det_bits(f"c02-cont-{i}", K) for i in range(3)]):
+            case = {"message": m}
+            ref = ref_encode(m)
+            for kind_, arg, keep in hist.bit_containers(m):
+                try:
+                    if BPTC19696.encode(arg).to01() != ref:
+                        s.violation(f"encode_differs_for_container:{kind_}", case)
+                    if arg.to01() != m:
+                        s.violation(f"encode_alters_argument:{kind_}", case)
+                except Exception as e:  # noqa: BLE001
+                    s.violation(f"exception_encode_container:{kind_}:" + exc_sig(e), case, repr(e))
+                del keep
+                s.case(nontrivial=True, calls=1, outcome=kind_, sample={**case, "container": kind_} if len(s.samples) < 2 else None)
+            damaged = spaces.flip(ref, (INFO_TX[7],))
+            for word, lab in ((ref, "errorfree"), (damaged, "one_error")):
+                for kind_, arg, keep in hist.bit_containers(word):
+                    try:
+                        if BPTC19696.deinterleave_data_bits(arg, True).to01() != m:
+                            s.violation(f"decode_with_repair_differs_for_container:{lab}:{kind_}", case)
+                        if lab == "errorfree" and BPTC19696.deinterleave_data_bits(arg, False).to01() != m:
+                            s.violation(f"decode_without_repair_differs_for_container:{kind_}", case)
+                        if arg.to01() != word:
+                            s.violation(f"decode_alters_argument:{lab}:{kind_}", case)
+                    except Exception as e:  # noqa: BLE001
+                        s.violation(f"exception_decode_container:{lab}:{kind_}:" + exc_sig(e), case, repr(e))
+                    del keep
+                    s.case(nontrivial=True, calls=2, outcome=(lab, kind_))
+        s.done()
+
+    if want("history_with_out_of_range_calls"):
+        s = rep.sub("history_with_out_of_range_calls",
+                    "every public function of BPTC19696 x 10 out-of-range arguments (empty, short, over-long, wrong container); whatever "
+                    "that call does, the next valid encode / decode (0, 1, 2 inverted bits, repair on) gives the reference result")
+        import numpy as _np
+        funcs = {
+            "encode": BPTC19696.encode, "deinterleave_all_bits": BPTC19696.deinterleave_all_bits,
+            "deinterleave_data_bits": BPTC19696.deinterleave_data_bits, "repair_if_necessary": BPTC19696.repair_if_necessary,
+            "repair_if_necessary_deinterleaved": lambda a: BPTC19696.repair_if_necessary(a, deinterleaved=True),
+            "fill_encoding_table": lambda a: BPTC19696.fill_encoding_table(BPTC19696.make_encoding_table(), a),
+        }
+        bad_args = [
+            ("empty_bitarray", lambda: bitarray()), ("bitarray_7", lambda: bitarray("1011011")), ("bitarray_95", lambda: bitarray("1" * 95)),
+            ("bitarray_97", lambda: bitarray("1" * 97)), ("bitarray_195", lambda: bitarray("10" * 97 + "1")), ("bitarray_197", lambda: bitarray("10" * 98 + "1")),
+            ("bitarray_264", lambda: bitarray("110" * 88)), ("bytes_12", lambda: bytes(range(12))), ("numpy_196", lambda: _np.array([1] * 196)), ("none", lambda: None),
+        ]
+        pm_ = env.det_bits("c02-oor", K)
+        pcw = ref_encode(pm_)
+        probes = [
+            ("encode", lambda: BPTC19696.encode(bitarray(pm_)).to01()),
+            ("decode_errorfree", lambda: BPTC19696.deinterleave_data_bits(bitarray(pcw), True).to01()),
+            ("decode_one_error", lambda: BPTC19696.deinterleave_data_bits(bitarray(spaces.flip(pcw, (INFO_TX[3],))), True).to01()),
+            ("decode_two_errors", lambda: BPTC19696.deinterleave_data_bits(bitarray(spaces.flip(pcw, (INFO_TX[3], TX[12][14]))), True).to01()),
+            ("decode_no_repair", lambda: BPTC19696.deinterleave_data_bits(bitarray(pcw), False).to01()),
+        ]
+        hist.poisoned_histories(s, funcs, bad_args, probes)
+        s.done()
+
+    if want("long_call_history"):
+        s = rep.sub("long_call_history",
+                    "encode / decode-with-repair of one fixed message called again and again in one process: the result never depends on how "
+                    "many calls came before.  Depth 3 when a call leaves class/module data untouched (observed), 2^16+256 calls per entry "
+                    "point when it does not, and always in the thorough tier")
+        import okdmr.dmrlib.etsi.fec.bptc_196_96 as _mb, okdmr.dmrlib.etsi.fec.hamming_common as _mh
+        from okdmr.dmrlib.etsi.fec.hamming_15_11_3 import Hamming15113 as _H15
+        from okdmr.dmrlib.etsi.fec.hamming_13_9_3 import Hamming1393 as _H13
+        lm = env.det_bits("c02-long", K)
+        lcw = ref_encode(lm)
+        lerr = spaces.flip(lcw, (INFO_TX[11], TX[2][13]))
+        hist.long_history(s, [BPTC19696, _H15, _H13, _mh.HammingCommon, _mb, _mh], [
+            ("encode", lambda: BPTC19696.encode(bitarray(lm)).to01()),
+            ("decode_two_errors_with_repair", lambda: BPTC19696.deinterleave_data_bits(bitarray(lerr), True).to01()),
+        ], always=rep.thorough(), deadline_s=400.0)
         s.done()
 
     rep.bounds = {
